@@ -87,8 +87,10 @@ def c17():
     return me.run("C17", "model_checking",
                   "replay with Freeze/Unfreeze in the action menu: while frozen every definitional call must raise ValueError and leave the projection unchanged, "
                   "plain-value assignments must still propagate, and after Unfreeze behaviour must follow the (history-free) spec again. "
-                  "non-trivial = transition whose triggered task set is non-empty",
-                  plans, tags=["C17"], modes=modes, hashseeds=(0,), queries=True)
+                  "Every conforming edge is replayed again with a frozen episode (freeze_tree(); leaf = its current value; unfreeze_tree()) inserted at a "
+                  "position of its path where Manager.tla's EpSafe says the three calls compose to the identity: the rest of the path and the edge must "
+                  "still conform ('as if it had never been frozen'). non-trivial = transition whose triggered task set is non-empty",
+                  plans, tags=["C17"], modes=modes, hashseeds=(0,), queries=True, episodes=(2 if _q() else -1))
 
 
 @prop("C18")
